@@ -409,7 +409,10 @@ int cmd_gssvx(const case_t *c)
         for (size_t i = 0; i < (size_t)S.ldx * nrhs; ++i) if (!is_sentinel(S.x[i])) { jo_fail("C06|X-written", "info = %ld but X was written", (long)info); break; }
         long want = struct_rank_prefix(&S.G0, perm_c);
         jo_int("first_deficient", want);
-        if (cint(c, "zerocol", -1) >= 0) {
+        if (cint(c, "zerocols", 0) > 0 && gen_nzerocols > 0) {
+            want = n + 1; for (int q = 0; q < gen_nzerocols; ++q) if (perm_c[gen_zerocols[q]] + 1 < want) want = perm_c[gen_zerocols[q]] + 1;
+            if (want != info) jo_fail("C06|wrong-index", "info = %ld but the first of the %d all-zero columns sits at position %ld of A*Pc", (long)info, gen_nzerocols, want);
+        } else if (cint(c, "zerocol", -1) >= 0) {
             want = perm_c[cint(c, "zerocol", 0)] + 1;
             if (want != info) jo_fail("C06|wrong-index", "info = %ld but the all-zero column sits at position %ld of A*Pc", (long)info, want);
         } else if (cint(c, "onesblock", 0)) {
